@@ -490,7 +490,8 @@ impl PrunePack {
         IndexPack {
             id: self.id,
             time: self.time.or(Some(time)),
-            size: None,
+            // the size can be computed from the blobs - except for packs without blob information
+            size: self.blobs.is_empty().then_some(self.size),
             blobs: self.blobs,
         }
     }
@@ -504,7 +505,8 @@ impl PrunePack {
         IndexPack {
             id: self.id,
             time: Some(time),
-            size: None,
+            // the size can be computed from the blobs - except for packs without blob information
+            size: self.blobs.is_empty().then_some(self.size),
             blobs: self.blobs,
         }
     }
